@@ -13,7 +13,7 @@ import XmpProofs.WorkBoundPP
 import XmpProofs.WorkBoundLzw
 import XmpProofs.WorkBoundLha
 import XmpProofs.WorkBoundMmcmp
-import XmpProps.C03
+import XmpProofs.WorkBoundCore
 /-!
 # C02 — work and memory bounded by real input size
 
@@ -136,7 +136,16 @@ namespace Xmp.C02
 `next_order` (`do { p->ord++ … } while (mod->xxo[p->ord] >= mod->pat)`, wrapping to the restart
 position / entry point) ends within `len + 1 ≤ 257` iterations for every well-formed module whose
 kept sequences reach a pattern, from every `p->ord ≥ -1` — no order list (all markers, all
-out-of-range patterns behind the first valid one, jump targets past the list) makes it spin. -/
+out-of-range patterns behind the first valid one, jump targets past the list) makes it spin.
+
+Scope of the hypothesis `OrdWF` (every kept sequence reaches a pattern: its restart position holds one, or its entry
+point does, or an order behind the entry point before the end of the list / an end marker does): it is NOT derived here
+from the loader and the scan — `libxmp_scan_sequences` (which drops a sequence whose scan finds nothing to play) has
+no model in `Seq`.  It is monitored: by C16 on every module it loads (`Seq.ordWfB` on the dumped module), and here
+(harness/c02_play.c, `entryok`) the two disjuncts visible through the public API are evaluated on every module that is
+played through its end, including modules whose restart position, jump targets and order tails are pattern-less or
+marker orders (tools/c02_gens.restart_play_set); the restart test `xxo[rst] >= pat` of the C is part of the model
+(`Seq.nextOrderLoop`), so a player that drops it leaves the model — caught by playing those modules twice through. -/
 theorem C02_next_order_terminates {m : Seq.SeqMod} (h : Seq.WF m) (ho : Seq.OrdWF m) {seq : Int}
     (hs : 0 ≤ seq ∧ seq < m.numSeq) (ord : Int) (hord : -1 ≤ ord) (rg : Bool) :
     (Seq.nextOrderLoop m seq (m.len + 1).toNat ord rg).isSome = true ∧ (m.len + 1).toNat ≤ 257 := by
@@ -397,7 +406,9 @@ theorem coreWork_le (c : LoadPost.Hdr.Counts) (rows : Nat) (h : LoadPost.Hdr.Cou
 patterns × rows × channels, rows ≤ 256 resp. ≤ 1024 as validated per pattern) is below one fixed ceiling of the
 library (`coreWorkCeiling` ≈ 16.8 M trips), independent of every other declared size; and each sample load consumes
 at most the bytes present and allocates at most `2·avail + 20` (`4·avail + 20` for ADPCM) bytes, never the declared
-sample length (C20).  Corollary of `C03_hdr_*`, `C03_hdr_rows` and `Sample.alloc_le` / `C20_truncation`. -/
+sample length (C20).  Corollary of the header-count theorems (`Work.Core.core_hdr_*`: the statements of `C03_hdr_*`, re-proved
+over the same model in XmpProofs/WorkBoundCore.lean so that this file does not depend on the rest of C03) and of
+`Sample.alloc_le` / `C20_truncation`. -/
 theorem C02_core_loader_work :
     (∀ magic wow probe len restart orders c, len ≤ 255 →
       LoadPost.Hdr.modHeader magic wow probe len restart orders = some c → coreWork c Gen.C03Hdr.modRows ≤ coreWorkCeiling) ∧
@@ -415,15 +426,15 @@ theorem C02_core_loader_work :
       Sample.totalAlloc flags h f ≤ (if Sample.fl flags Sample.Gen.SAMPLE_FLAG_ADPCM then 4 * Sample.avail f else 2 * Sample.avail f) + 20) := by
   refine ⟨?_, ?_, ?_, ?_, ?_⟩
   · intro magic wow probe len restart orders c hl h
-    exact coreWork_le c _ (LoadPost.C03_hdr_mod magic wow probe len restart orders c hl h).1 (by decide)
+    exact coreWork_le c _ (Work.Core.core_hdr_mod magic wow probe len restart orders c hl h).1 (by decide)
   · intro ffi ordnum insnum patnum magicOK chset orders c h
-    exact coreWork_le c _ (LoadPost.C03_hdr_s3m ffi ordnum insnum patnum magicOK chset orders c h).1 (by decide)
+    exact coreWork_le c _ (Work.Core.core_hdr_s3m ffi ordnum insnum patnum magicOK chset orders c h).1 (by decide)
   · intro songlen restart channels patterns instruments tempo bpm headersz med2xm smp c hs h version field r hr
-    have := (LoadPost.C03_hdr_rows.1 version field r hr).2
-    exact coreWork_le c r (LoadPost.C03_hdr_xm songlen restart channels patterns instruments tempo bpm headersz med2xm smp c hs h).1 (by omega)
+    have := (Work.Core.core_hdr_rows.1 version field r hr).2
+    exact coreWork_le c r (Work.Core.core_hdr_xm songlen restart channels patterns instruments tempo bpm headersz med2xm smp c hs h).1 (by omega)
   · intro ordnum insnum smpnum patnum gv sampleMode maxCh c hch h offset n r hr
-    have := (LoadPost.C03_hdr_rows.2.1 offset n r hr).2
-    exact coreWork_le c r (LoadPost.C03_hdr_it ordnum insnum smpnum patnum gv sampleMode maxCh c hch h).1 this
+    have := (Work.Core.core_hdr_rows.2.1 offset n r hr).2
+    exact coreWork_le c r (Work.Core.core_hdr_it ordnum insnum smpnum patnum gv sampleMode maxCh c hch h).1 this
   · intro flags h skip f buffer hbuf hs hN
     obtain ⟨h', a, c, _, _, _, _, _, hc, hle⟩ := (Sample.C20_truncation flags h skip f buffer hbuf).2 hs
     exact ⟨by rw [← hc]; exact hle hN, ((Sample.alloc_le flags h f buffer hbuf).1 hN).2⟩
